@@ -15,6 +15,7 @@ import (
 	"strconv"
 	"strings"
 	"sync"
+	"time"
 
 	"github.com/gopacket/gopacket"
 	"github.com/gopacket/gopacket/layers"
@@ -61,6 +62,26 @@ func n6call(f func() error) (cls string) {
 		return "err"
 	}
 	return "ok"
+}
+
+// n6decode runs a DecodeFromBytes call under a watchdog: a decoder that does not return within
+// 3 s is reported as class "stuck" (its goroutine is abandoned; after 3 such cases no further
+// decode is attempted so that a hanging decoder cannot eat the machine).
+var n6stuck int
+
+func n6decode(f func() error) string {
+	if n6stuck >= 3 {
+		return "stuck"
+	}
+	ch := make(chan string, 1)
+	go func() { ch <- n6call(f) }()
+	select {
+	case c := <-ch:
+		return c
+	case <-time.After(3 * time.Second):
+		n6stuck++
+		return "stuck"
+	}
 }
 
 // n6render runs a renderer and reports ok or panic.
